@@ -20,6 +20,7 @@ import Py4hwV.Verilog.Sem
                name only ports that module has, each at most once, every input port of the module is connected, the
                self-determined width (IEEE 1364-2005 §5.4, `V.selfW`) of the connected expression equals the port width,
                output/inout ports are connected to lvalues; parameter overrides name parameters of the module, once each
+    R-pdef     every parameter is declared with a default value: a constant expression over the module's parameters
     R-drv      every net (wire, non-reg output) has exactly one driver and it is a continuous assign or an instance
                output; an input port and a parameter have no driver inside; a variable (reg, output reg, integer,
                memory) is only assigned procedurally (always / initial) and never by a continuous assign or an instance
@@ -158,6 +159,9 @@ def rdOf (m : Module) : Rd :=
 structure Env where
   mods : Design
   ext : List Module := []      -- declared external black boxes: only the header is looked at
+  /-- default values of the parameter declarations `parameter P = e` of the emitted modules, keyed by (module, parameter).
+      (`V.Module.params` of the shared syntax keeps only the names; the defaults travel beside the design.) -/
+  pdefs : List ((String × String) × Expr) := []
 
 def Env.all (e : Env) : List Module := e.mods ++ e.ext
 
@@ -206,6 +210,7 @@ inductive Err where
   | driven (m n : String)                         -- an input port / parameter driven inside
   | procOnNet (m n : String)                      -- a net assigned in an always / initial block
   | netDriverOnVar (m n : String)                 -- a reg / integer / memory driven by assign or an instance output
+  | paramNoDefault (m p : String)                 -- `parameter P` without `= constant_expression` (IEEE 1364-2005 A.2.1.1)
 deriving Repr, DecidableEq, Inhabited
 
 def Err.msg : Err → String
@@ -226,6 +231,7 @@ def Err.msg : Err → String
   | .driven m n => s!"driven|{m}|{n}"
   | .procOnNet m n => s!"procOnNet|{m}|{n}"
   | .netDriverOnVar m n => s!"netDriverOnVar|{m}|{n}"
+  | .paramNoDefault m p => s!"paramNoDefault|{m}|{p}"
 
 /-- one error unless the condition holds -/
 def need (c : Bool) (e : Err) : List Err := if c then [] else [e]
@@ -318,10 +324,23 @@ def headerErrs (all : List Module) (m : Module) : List Err :=
 def bodyErrs (all : List Module) (m : Module) : List Err :=
   kwErrs m ++ declErrs m ++ m.items.flatMap (instErrs all m) ++ (decls m).flatMap (driverErrs m.name (drivers all m))
 
-def checkE (env : Env) : List Err :=
-  env.all.flatMap (headerErrs env.all) ++ env.mods.flatMap (bodyErrs env.all)
+/-! ### R-pdef: every parameter of an emitted module is declared with a default value, a constant expression over the
+   module's parameters (a parameter chain `parameter A = 2, parameter B = A + 1` is fine) that uses no reserved word -/
+def defaultOf (env : Env) (m p : String) : Option Expr :=
+  (env.pdefs.find? fun d => d.1.1 == m && d.1.2 == p).map (·.2)
 
-/-- `WF.check` of DESIGN.md: rendered error list of a closed design (no black boxes) -/
+def pdefErrs (env : Env) (m : Module) : List Err :=
+  m.params.flatMap fun p =>
+    match defaultOf env m.name p with
+    | none => [.paramNoDefault m.name p]
+    | some e => (exprIds e).flatMap fun n =>
+        need (decide (n ∈ m.params)) (.undeclared m.name n) ++ need (!isKeyword n) (.reserved m.name n)
+
+def checkE (env : Env) : List Err :=
+  env.all.flatMap (headerErrs env.all) ++ env.mods.flatMap (bodyErrs env.all) ++ env.mods.flatMap (pdefErrs env)
+
+/-- `WF.check` of DESIGN.md: rendered error list of a closed design (no black boxes; a bare `V.Design` carries no parameter
+    defaults, so a module with parameters is reported `paramNoDefault` here — the harness always uses `checkE` with `pdefs`) -/
 def check (d : Design) : List String := (checkE { mods := d }).map Err.msg
 
 /-! ### the same rules, declaratively -/
@@ -432,9 +451,14 @@ structure BodyWF (all : List Module) (m : Module) : Prop where
   insts : ∀ it ∈ m.items, InstWF all m it
   drivers : ∀ d ∈ decls m, DriverWF (drvOf (drivers all m) d.name) d.kind
 
+/-- every parameter has a default, a constant expression over the module's own parameters without reserved words -/
+def PDefWF (env : Env) (m : Module) : Prop :=
+  ∀ p ∈ m.params, ∃ e, defaultOf env m.name p = some e ∧ ∀ n, ExprUses e n → n ∈ m.params ∧ n ∉ keywords
+
 structure WellFormedE (env : Env) : Prop where
   headers : ∀ m ∈ env.all, HeaderWF env.all m
   bodies : ∀ m ∈ env.mods, BodyWF env.all m
+  pdefs : ∀ m ∈ env.mods, PDefWF env m
 
 /-- a closed design without black boxes -/
 def WellFormed (d : Design) : Prop := WellFormedE { mods := d }
